@@ -79,7 +79,8 @@ def _list_plot_item_labels(cp):
   return outlist  
 
 def _item_value(cp, key):
-  section, section_key = key.split(":",1)
+  # Section names may themselves contain ':' (e.g. Table-Form:NAME) whereas option keys can't.
+  section, section_key = key.rsplit(":",1)
   v = cp.raw_config_parser[section][section_key]
   return v 
 
